@@ -269,6 +269,7 @@ def disconnect_contract(h):
     sock = W.make_socket()
     writer0 = sock.attrs["_writer"]
     _install_notify(W)
+    W.check_invariant_at_suspensions()
     r = h.method(sock, "_disconnect")
     ev = h.it.path.events
     h.oblige("_disconnect lets no exception out", r.ok)
@@ -357,6 +358,7 @@ def connect_contract(h):
         return run_library(h, "connect")
     W = SockWorld(h)
     sock = W.make_socket()
+    W.check_invariant_at_suspensions()
     W.enable_interference()
     opened = []
     state_at_open = {}
@@ -436,7 +438,8 @@ def read_one_contract(h):
     readexactly(2); returns a message only if the check bytes read equal CRC16(checksum span ++ payload)
     and both decoders consumed everything; DecodeError -> None; any other decoder exception propagates."""
     if not h.symbolic:
-        return
+        from replay.read_scenarios import run_library
+        return run_library(h)
     W = SockWorld(h, header_length=h.choice("header_length", [8, 20]))
     sock = W.make_socket(connected=True)
     rd = sock.attrs["_reader"]
